@@ -787,6 +787,9 @@ def check_handmade(case):
     rank = int(case["rank"])
     cls = [pde.ScalarField, pde.VectorField][rank]
     field = cls.random_normal(base, rng=np.random.default_rng(case["seed"]))
+    # (the ghost cells of a new field are uninitialised memory - possibly NaN, which compares unequal to itself:
+    # false alarm at VERIF_SEED=2 - so the whole padded array gets defined numbers)
+    field._data_full[...] = np.random.default_rng(case["seed"] + 1).normal(size=field._data_full.shape)
     ghost = bool(case["ghost"])
     full = field._data_full if ghost else field.data
     starts = np.cumsum([0] + sizes)
